@@ -36,6 +36,8 @@ pub struct EngineCfg {
     pub record_clock: bool,
     /// wall-clock limit for the whole run (harness error when exceeded)
     pub wall_limit_s: u64,
+    /// keep every logged event (seq, time, thread, kind, a, b) for offline oracles
+    pub record_events: bool,
 }
 
 impl Default for EngineCfg {
@@ -48,6 +50,7 @@ impl Default for EngineCfg {
             yield_permille: 300,
             record_clock: false,
             wall_limit_s: 60,
+            record_events: false,
         }
     }
 }
@@ -66,6 +69,17 @@ pub struct Report {
     pub panics: Vec<(String, String)>,
     pub clock_reads: Vec<(u64, Tid, u64)>,
     pub thread_names: Vec<String>,
+    pub events: Vec<Ev>,
+}
+
+#[derive(Clone, Debug)]
+pub struct Ev {
+    pub seq: u64,
+    pub now: u64,
+    pub tid: Tid,
+    pub kind: &'static str,
+    pub a: u64,
+    pub b: u64,
 }
 
 #[derive(Clone, Copy, PartialEq, Debug)]
@@ -111,6 +125,8 @@ struct Inner {
     clock_reads: Vec<(u64, Tid, u64)>,
     os_handles: Vec<std::thread::JoinHandle<()>>,
     done: bool,
+    record_events: bool,
+    events: Vec<Ev>,
 }
 
 static ENGINE: Mutex<Inner> = Mutex::new(Inner {
@@ -137,6 +153,8 @@ static ENGINE: Mutex<Inner> = Mutex::new(Inner {
     clock_reads: Vec::new(),
     os_handles: Vec::new(),
     done: false,
+    record_events: false,
+    events: Vec::new(),
 });
 static DONE_CV: Condvar = Condvar::new();
 
@@ -192,6 +210,10 @@ fn log_locked(g: &mut Inner, kind: &'static str, a: u64, b: u64) -> u64 {
         s = fnv(s, by as u64);
     }
     g.sig_hash = s;
+    if g.record_events {
+        let ev = Ev { seq: g.seq, now: g.now, tid: g.current, kind, a, b };
+        g.events.push(ev);
+    }
     if g.trace {
         let name = g.threads.get(g.current).map(|t| t.name.as_str()).unwrap_or("?");
         eprintln!("[{:>7} t={:>14} {:<12}] {} {:x} {:x}", g.seq, g.now, name, kind, a, b);
@@ -611,6 +633,8 @@ pub fn run(cfg: EngineCfg, root: impl FnOnce() + Send + 'static) -> Report {
         g.panics.clear();
         g.clock_reads.clear();
         g.done = false;
+        g.record_events = cfg.record_events;
+        g.events.clear();
     }
     crate::time::set_manual_ns(0);
     let root_tid = spawn_raw(
@@ -676,6 +700,7 @@ pub fn run(cfg: EngineCfg, root: impl FnOnce() + Send + 'static) -> Report {
         panics: std::mem::take(&mut g.panics),
         clock_reads: std::mem::take(&mut g.clock_reads),
         thread_names: g.threads.iter().map(|t| t.name.clone()).collect(),
+        events: std::mem::take(&mut g.events),
     }
 }
 
